@@ -333,7 +333,7 @@ fn strategy(max_len: usize) -> BoxedStrategy<Case3> {
             }
             sc
         });
-    (prop_oneof![6 => split.boxed(), 4 => general.boxed(), 3 => scenario.boxed()], stdin_text(), prop_oneof![2 => Just(0u8), 2 => Just(1u8), 5 => Just(2u8)])
+    (prop_oneof![6 => split.boxed(), 4 => general.boxed(), 4 => scenario.boxed()], stdin_text(), prop_oneof![2 => Just(0u8), 2 => Just(1u8), 5 => Just(2u8)])
         .prop_map(|(cmds, stdin, level)| Case3 { prog: ProgCase { cmds, stdin }, level })
         .boxed()
 }
@@ -374,7 +374,7 @@ pub fn gates(out: &Outcome, tier: Tier) -> Vec<String> {
         ("level 2: prefix ends area-less", 60),
         ("level 2: pending ♡ target at the boundary", 4),
         ("level 2 partial: run takes jumps", 40),
-        ("level 2 partial: run takes a ♡ return", 15),
+        ("level 2 partial: run takes a ♡ return", 6),
         ("level 2 partial: fraction/negative/NaN values in play", 60),
         ("area-carrying commands: 3-7", 100),
         ("area-carrying commands: 8+", 20),
